@@ -16,6 +16,13 @@ NOTES = ("Every check = TLA+ specification under spec/ checked by TLC + conforma
          "known_findings.json lists genuine defects (known / fixed).")
 NOT_APPLICABLE = {}
 CHECKS = {
+    "C15": {
+        "level": "model_checking",
+        "technique": "TLA+ spec Render.tla (N renders x phases with per-render contexts and read-only globals; invariants Isolation/Deterministic/GlobalsUnchanged; SharedCache variant must fail) model-checked by TLC; every behaviour replayed as a goroutine schedule in a -race build of the harness, digests of the recorded backend calls compared with fresh-process renders; repeated renders of TLC-generated documents",
+        "text": "TLC enumerates the interleavings of the phases of concurrent renders and proves isolation on the model; the schedules are executed on real goroutines "
+                "under the race detector and every render must reproduce the calls of a lone fresh-process render of its document.",
+        "note": "Pool of 8 documents + Flow.tla documents; schedule = order of phase starts; race reports are verdicts.",
+    },
     "C14": {
         "level": "model_checking",
         "technique": "TLA+ spec Backend.tla (outline builder AddBookmark as a transition system vs declarative Outline, anchors/links expectations; drawing protocol Proto as a folded transition function) model-checked by TLC; link documents replayed and compared call by call; backend call sequences recorded from document.Write validated as traces by TLC (BackendTrace.tla) on Decor/Flow/TableGrid/Stacking/link documents at three zooms",
